@@ -113,6 +113,8 @@ type c17Rec struct {
 	B1     obj      `json:"b1,omitempty"` // {magic, off, toks, strs}
 }
 
+const c17MaxFieldBytes = 3000
+
 // toplevel function of the Init running on a given thread (VerifStep hook)
 var (
 	c17mu  sync.Mutex
@@ -430,6 +432,10 @@ func runC17Case(c *c17Case) (rec c17Rec) {
 	rec.Same = bytes.Equal(b1.Bytes(), b2.Bytes())
 	rec.P = c17side(c, P)
 	rec.Q = c17side(c, Q)
+	// format conformance is evaluated by TLC token by token: only for files of moderate size
+	if c.Fields && rec.P.Fields != nil && rec.Q.Fields != nil && b1.Len() > c17MaxFieldBytes {
+		rec.P.Fields, rec.Q.Fields = nil, nil
+	}
 	if c.Fields && rec.P.Fields != nil && rec.Q.Fields != nil {
 		if sp, err := splitProgram(b1.Bytes()); err == nil {
 			rec.HasF = true
